@@ -122,7 +122,8 @@ func (r *Report) finish(writeEvidence bool) int {
 	known := loadKnown()
 	isKnown := func(o Obligation) *KnownFinding {
 		for i, k := range known.Known {
-			if k.Property == r.Property && k.Rule == o.Rule && k.Key == o.Key {
+			// the thorough tier repeats the rules under GOARCH=386 and tags the keys
+			if k.Property == r.Property && k.Rule == o.Rule && k.Key == strings.TrimPrefix(o.Key, "[GOARCH=386] ") {
 				return &known.Known[i]
 			}
 		}
